@@ -491,6 +491,36 @@ def missing_from_output(b: Built, e: mn.Edge, text: str) -> T.Tuple[T.Optional[m
     return None, (names[0] if names else '')
 
 
+MECH_RPATH = 'step-fails-in-every-order:build-rpath-misses-shared-lib-behind-link_whole'
+_LOADERR = re.compile(r'error while loading shared libraries: ([^\s:]+):')
+
+
+def classify_failure(b: Built, fe: T.Optional[mn.Edge], text: str) -> T.Tuple[str, T.Optional[mn.Edge], str]:
+    """Mechanism of a failing build step under some schedule: (mechanism, producer of the missing file, missing file)."""
+    if fe is None:
+        return 'schedule-fails:unknown', None, ''
+    p, o = missing_from_output(b, fe, text)
+    if p is None:
+        lm = _LOADERR.search(re.sub(r'\x1b\[[0-9;]*[A-Za-z]', '', text))
+        if lm:
+            # a built program run by this step cannot load a built shared library although the library's
+            # producer IS an ancestor: not an ordering problem - the step fails in every order.
+            so = lm.group(1)
+            anc = b.m.ancestors(fe)
+            prods = [(k, v) for k, v in b.m.producer.items() if os.path.basename(k).startswith(so) and v.idx in anc]
+            if prods:
+                behind = False
+                for e2 in b.m.edges:
+                    # the dependent ELF: links a whole archive and the shared library, and got no build rpath at all
+                    la = e2.scope.vars.get('LINK_ARGS', '')
+                    if '--whole-archive' in la and '-rpath' not in la and any(os.path.basename(k) in la for k, _ in prods):
+                        behind = True
+                if behind:
+                    return MECH_RPATH, prods[0][1], prods[0][0]
+                return 'step-fails-in-every-order:shared-lib-not-found-at-run-time', prods[0][1], prods[0][0]
+    return 'schedule-fails:' + mechanism_for(fe, p, o), p, o
+
+
 # ------------------------------------------------------------------------------------------------
 # one project = one worker task
 # ------------------------------------------------------------------------------------------------
@@ -551,8 +581,7 @@ def run_project(task: dict) -> dict:
             return res
         if rc != 0:
             fe = b.m.edges[ex.failed[0]] if ex.failed else None
-            p, o = missing_from_output(b, fe, out) if fe is not None else (None, '')
-            mech = ('schedule-fails:' + mechanism_for(fe, p, o)) if fe is not None else 'schedule-fails:unknown'
+            mech, p, o = classify_failure(b, fe, out)
             violation(mech, {'layer': 'reference-build', 'schedule': {'policy': 'decl', 'jobs': task['ref_jobs']},
                              'failed_edge': edge_brief(fe) if fe else None,
                              'missing': o, 'producer': edge_brief(p) if p else None, 'output': out[-1500:]})
@@ -565,6 +594,14 @@ def run_project(task: dict) -> dict:
             return res
         exp_bad = [(x['name'], b.ref_behaviour.get(x['name']), x['stdout']) for x in proj['exes']
                    if b.ref_behaviour.get(x['name']) != (0, x['stdout'])]
+        loaderr = [t for t in exp_bad if t[1] is not None and t[1][0] == 127 and _LOADERR.search(t[1][1])]
+        if loaderr:
+            # the build succeeded; the produced executable cannot be run from the build dir (run-time search path,
+            # not ordering): outside C05's statement, kept as an incidental observation
+            bump('incidental_exe_cannot_load_shared_lib', len(loaderr))
+            res['notes'].append('incidental (not C05): built executable cannot load a built shared library: '
+                                + repr(loaderr)[:300])
+            exp_bad = [t for t in exp_bad if t not in loaderr]
         bump('exe_outputs_checked_vs_generator', len(proj['exes']))
         if exp_bad:
             bump('exe_outputs_mismatch_vs_generator', len(exp_bad))
@@ -675,8 +712,7 @@ def run_project(task: dict) -> dict:
             if src != 0:
                 fe = b.m.edges[sx.failed[0]] if sx.failed else None
                 text = sout.getvalue()
-                p, o = missing_from_output(b, fe, text) if fe is not None else (None, '')
-                mech = ('schedule-fails:' + mechanism_for(fe, p, o)) if fe is not None else 'schedule-fails:unknown'
+                mech, p, o = classify_failure(b, fe, text)
                 violation(mech, {'layer': 'schedule', 'schedule': sched, 'failed_edge': edge_brief(fe) if fe else None,
                                  'missing': o, 'producer': edge_brief(p) if p else None, 'output': text[-1500:]})
                 continue
@@ -767,6 +803,27 @@ DIRECTED: T.List[T.Tuple[T.List[str], T.Dict[str, T.Any]]] = [
     (['generator', 'ct_object', 'ct_header'], {'generator.depends': 'process', 'ct_object.how': 'archive',
                                                'ct_header.variant': 'index'}),
 ]
+
+
+def probe_rpath_project() -> dict:
+    """Directed probe of the known finding MECH_RPATH: a program run at build time links a shared library that
+    whole-links a static library that links another shared library.  Correct behaviour: the build succeeds and
+    `pr` prints `pr 3`."""
+    files = {
+        'meson.build': ("project('c05probe', 'c')\n"
+                        "l0 = shared_library('l0', 'l0.c')\n"
+                        "l1 = static_library('l1', 'l1.c', link_with: l0)\n"
+                        "l2 = shared_library('l2', 'l2.c', link_whole: l1)\n"
+                        "pr = executable('pr', 'pr.c', link_with: l2)\n"
+                        "out = custom_target('out', output: 'out.txt', command: [pr], capture: true, build_by_default: true)\n"),
+        'l0.c': 'int f0(void) { return 1; }\n',
+        'l1.c': 'int f0(void);\nint f1(void) { return f0() + 1; }\n',
+        'l2.c': 'int f1(void);\nint f2(void) { return f1() + 1; }\n',
+        'pr.c': '#include <stdio.h>\nint f2(void);\nint main(void) { printf("pr %d\\n", f2()); return 0; }\n',
+    }
+    return {'files': files, 'setup_args': [], 'features': ['probe:shared-lib-behind-link_whole-run-at-build-time'],
+            'exes': [{'name': 'pr', 'path': 'pr', 'stdout': 'pr 3\n'}], 'blocks': ['probe-rpath'], 'ntargets': 5,
+            'seed': 'probe', 'index': -1, 'key': 'probe:rpath-link_whole'}
 
 
 def build_tasks(chk: common.Check, scratch: str, projects: T.List[dict], nsched: int, hermetic_all: bool,
@@ -881,6 +938,7 @@ def main() -> int:
     projects: T.List[dict] = []
     for k, (blocks, force) in enumerate(DIRECTED if quick else DIRECTED * 3):
         projects.append(gen_c05.generate(f'{chk.seed}:directed', k, blocks, force))
+    projects.append(probe_rpath_project())
     i = 0
     while len(projects) < nproj:
         projects.append(gen_c05.generate(chk.seed, i))
